@@ -10,7 +10,9 @@ def spec(th, seed):
              U('C09_transform.lh', SRC, 'plain', defs=LH, args=['--only', 'lookAt'], libs=LIBS),
              # the depth-range macro must not influence handedness: RH_ZO and LH_ZO configurations
              U('C09_transform.rh-zo', SRC, 'plain', defs=['-DGLM_FORCE_DEPTH_ZERO_TO_ONE'], args=['--only', 'lookAt'], scale=0.5, libs=LIBS),
-             U('C09_transform.lh-zo', SRC, 'plain', defs=LH + ['-DGLM_FORCE_DEPTH_ZERO_TO_ONE'], args=['--only', 'lookAt'], scale=0.5, libs=LIBS)]
+             U('C09_transform.lh-zo', SRC, 'plain', defs=LH + ['-DGLM_FORCE_DEPTH_ZERO_TO_ONE'], args=['--only', 'lookAt'], scale=0.5, libs=LIBS),
+             # decompose writes the quaternion by index: the other storage order must give the same components (seed C09n)
+             U('C09_transform.wxyz', SRC, 'plain', defs=['-DGLM_FORCE_QUAT_DATA_WXYZ'], args=['--only', 'decompose'], libs=LIBS)]
     if th:
         units.append(U('C09_transform.clang', SRC, 'clang', scale=0.15, libs=LIBS))
         units.append(U('C09_transform.lh-clang', SRC, 'clang', defs=LH, args=['--only', 'lookAt'], scale=0.15, libs=LIBS))
